@@ -26,7 +26,9 @@ package wpc13
 //     Oracle: no panic; the answers do not depend on what the pool's buffers held (warm pool = no pool); every
 //     answer is B's answer or a corruption error; never A's data.
 //
-// Every damaged file also goes to the model (`tbl read`), expecting the answers of the pool-less reader.
+// Every damaged file also goes to the model (`tbl read`), expecting the answers of the pool-less reader; in these
+// classes the operation list ends with `e`, the class of the reader's permanent error (footer / block / none),
+// which the model answers from `Table.openE`.
 
 import (
 	"bytes"
@@ -106,6 +108,13 @@ func (c *Case) mutatedValues() *Case {
 func readerRepairs(c *Case, file []byte, blks []blk, ops, g1 []string, r *rand.Rand, sz Sizes, s *wp.Sink, st *Stats,
 	viol func(sig, format string, a ...interface{})) {
 	if len(file) > sz.RepairMaxFile {
+		return
+	}
+	// one more operation in these classes: the class of the reader's permanent error (model: `Table.openE`)
+	ops = append(append([]string{}, ops...), "e")
+	g1 = append(append([]string{}, g1...), runOps(file, c, false, []string{"e"})[0])
+	if g1[len(g1)-1] != "e:ok" {
+		viol("intact-error", "the intact table's reader carries an error: %s", g1[len(g1)-1])
 		return
 	}
 	var mb, ib blk
@@ -305,10 +314,26 @@ func readerRepairs(c *Case, file []byte, blks []blk, ops, g1 []string, r *rand.R
 	)
 	if dataEnd > 1 {
 		// data region cut at k, the rest of the file moved down, the footer handles adjusted
+		// the block cache is keyed by block offset: the moved index block must not land on an offset that a handle
+		// of a checksummed block (a data block of the index, the filter block of the metaindex) still names — that
+		// would be a second inconsistency of the file (two different blocks under one cache key), not a short read
+		named := map[int]bool{dataEnd: true}
+		for _, b := range blks {
+			if b.kind == 'd' {
+				named[b.off] = true
+			}
+		}
 		for n := 0; n < 2; n++ {
-			k := r.Intn(dataEnd)
-			if n == 0 && nData > 1 {
-				k = r.Intn(blks[0].ln + 5 + 1) // inside / right after the first data block
+			k, ok := 0, false
+			for try := 0; try < 20 && !ok; try++ {
+				k = r.Intn(dataEnd)
+				if n == 0 && nData > 1 {
+					k = r.Intn(blks[0].ln + 5 + 1) // inside / right after the first data block
+				}
+				ok = !named[k] && !named[ib.off-(dataEnd-k)] && !named[mb.off-(dataEnd-k)]
+			}
+			if !ok {
+				continue
 			}
 			cut := uint64(dataEnd - k)
 			f3 := append([]byte{}, file[:k]...)
@@ -360,6 +385,9 @@ func readerRepairs(c *Case, file []byte, blks []blk, ops, g1 []string, r *rand.R
 // a corruption error, or — for OffsetOf, an approximation that falls back on the reader's dataEnd, which comes from
 // the footer / the metaindex block — any offset within the original file.
 func acceptable(op, a, intact, unf string, fileLen int) bool {
+	if op == "e" {
+		return a == "e:ok" || a == "e:footer" || a == "e:block"
+	}
 	if a == "corrupt" || a == intact || a == unf {
 		return true
 	}
